@@ -338,6 +338,12 @@ func runSysPlug(x *X) {
 				x.Probe("trailer-through-plugins")
 			}
 		}
+		// a request that asks for a protocol upgrade and is answered with an ordinary response is an
+		// ordinary exchange: limits and codings apply to it like to any other
+		if ex.method == "GET" && len(ex.body) == 0 && c.Intn(8, "upgrade-request") == 0 {
+			ex.hdr = append(ex.hdr, hdrKV{"Connection", "Upgrade"}, hdrKV{"Upgrade", "websocket"})
+			x.Probe("upgrade-request-answered-plainly")
+		}
 		// the TE request header (hop-by-hop, about transfer codings) is not Accept-Encoding
 		if c.Intn(8, "te-header") == 0 {
 			ex.hdr = append(ex.hdr, hdrKV{"TE", []string{"gzip", "trailers, gzip", "trailers"}[c.Intn(3, "te-value")]})
